@@ -465,6 +465,13 @@ def _call_builtin(I, st, f, name, args, kw, frame, node, where):
             return [(st, Num(r.p, True))]
         if fn in ('atan2', 'cos', 'sin', 'tan', 'atan', 'acos', 'asin', 'fabs', 'degrees', 'radians', 'copysign'):
             return [(st, I.app(fn, args, NONNEG if fn == 'fabs' else SIGNS))]
+        if fn == 'isclose' and len(args) >= 2 and isinstance(args[0], Num) and isinstance(args[1], Num):
+            # "approximately equal": certainly true for equal values, otherwise it may hold for values that differ - an answer the
+            # sign facts of the path cannot justify
+            d = args[0].p - args[1].p
+            if I.infer_signs(st, d) == frozenset([0]):
+                return [(st, True)]
+            return I.decide(st, ('isclose', d.canon()[0].key()), BOOL, frozenset([True]))
         if fn == 'isnan' or fn == 'isinf' or fn == 'isfinite':
             return I.decide(st, (fn, vkey(args[0])), BOOL, frozenset([True]))
         raise Unsupported('math.%s' % fn)
